@@ -1,7 +1,7 @@
 SPECIFICATION Spec
 CONSTANTS
   Rows = 3
-  Cols = 4
+  Cols = 3
   MaxEntry = 2
   MaxDim = 3
   MaxBound = 3
